@@ -242,7 +242,20 @@ def bound_tiebreak(ctx):
                 k = Q.kwarg(c, 'key')
                 if k is not None:
                     keyexprs.append(k)
-                    mm_calls.append((c, g, b))
+                    mm_calls.append((c, g, b, c.func.id))
+            # max/min unrolled: `if K(i) > K(best): best = i`
+            if isinstance(c, ast.Compare) and len(c.ops) == 1 and isinstance(
+                    c.ops[0], (ast.Gt, ast.Lt)) and isinstance(
+                    c.left, ast.Call) and isinstance(
+                        c.comparators[0], ast.Call) and isinstance(
+                    c.left.func, ast.Name) and isinstance(
+                        c.comparators[0].func, ast.Name) and \
+                    c.left.func.id == c.comparators[0].func.id and len(
+                        c.left.args) == 1 and len(
+                        c.comparators[0].args) == 1:
+                keyexprs.append(c.left.func)
+                mm_calls.append((c, g, b, 'max' if isinstance(
+                    c.ops[0], ast.Gt) else 'min'))
     Q.require(keyexprs, 'simplify_specifiers: no max()/min() with key=')
     kfn, kparam, kret = None, None, None
     k0 = keyexprs[0]
@@ -281,7 +294,7 @@ def bound_tiebreak(ctx):
                'for equal versions min() keeps <= over <: the excluded '
                'version is accepted')
     ok_lo = ok_hi = False
-    for c, g_, b_ in mm_calls:
+    for c, g_, b_, kind_ in mm_calls:
         if True:
             cmps = F.guard_compares(c, g_, b_)
             ops_ = set()
@@ -299,9 +312,9 @@ def bound_tiebreak(ctx):
                                       else [v]):
                                 if x in ('>', '>=', '<', '<='):
                                     ops_.add(x)
-            if c.func.id == 'max' and ops_ and ops_ <= {'>', '>='}:
+            if kind_ == 'max' and ops_ and ops_ <= {'>', '>='}:
                 ok_lo = True
-            if c.func.id == 'min' and ops_ and ops_ <= {'<', '<='}:
+            if kind_ == 'min' and ops_ and ops_ <= {'<', '<='}:
                 ok_hi = True
     ctx.ob(R, 'bounds|max-for-lower,min-for-upper', ok_lo and ok_hi, f.node,
            'lower bounds are not combined with max / upper with min')
@@ -387,11 +400,11 @@ def pc_vars(ctx):
     ok = bool(inst) and all(
         has(e.arg(2), 'install_dirs') and any(
             pos and param_of(F.atoms(t, f_, b_), 'installed')
-            for t, pos, f_, b_ in F.guard_leaves(e.call, e.fn))
+            for t, pos, f_, b_ in F.guard_leaves(e.call, e.fn, e.bind))
         for e in inst)
     excl = set()
     for e in inst:
-        for op, l, r in F.guard_compares(e.call, e.fn):
+        for op, l, r in F.guard_compares(e.call, e.fn, e.bind):
             for side in (l, r):
                 for a in side:
                     if 'InstallRoot.' in a and op == 'NotEq':
@@ -411,7 +424,7 @@ def pc_vars(ctx):
                     pass
     un = {n_: e for n_, e in names.items() if any(
         not pos and param_of(F.atoms(t, f_, b_), 'installed')
-        for t, pos, f_, b_ in F.guard_leaves(e.call, e.fn))}
+        for t, pos, f_, b_ in F.guard_leaves(e.call, e.fn, e.bind))}
     ctx.ob(R, 'uninstalled|srcdir+builddir',
            {'srcdir', 'builddir'} <= set(un), f.node,
            'uninstalled variant defines {}'.format(sorted(un)))
